@@ -4,7 +4,7 @@ cd /verif
 git pull --no-edit $1/verif main >/dev/shm/integrate.log 2>&1
 for f in $(git diff --name-only --diff-filter=U); do
   case "$f" in
-    evidence/*|MANIFEST.json|known_findings.json) git checkout --ours -- "$f" 2>/dev/null; git add "$f";;
+    evidence/*|MANIFEST.json|known_findings.json|anchors.json) git checkout --ours -- "$f" 2>/dev/null; git add "$f";;
     *) echo "CONFLICT needs hand: $f";;
   esac
 done
